@@ -4,6 +4,8 @@ import (
 	"context"
 	"encoding/binary"
 	"fmt"
+	"runtime"
+	"strings"
 	"sync"
 	"time"
 
@@ -28,17 +30,38 @@ import (
 
 type seamKind int
 
+// Crash triggers may only be armed on kinds whose calls all come from ONE goroutine of the service
+// in program order (send/ensure/timer/waitDemux: the demux loop; waitPersist: the persistence loop;
+// assemble: the pseudonode proposal worker). seamRead is called from several goroutines at once, so
+// counting its calls would race; it is never used for triggers.
 const (
 	seamSend seamKind = iota // Broadcast / Relay / Disconnect
 	seamEnsure
-	seamWait
+	seamWaitDemux
 	seamTimer
-	seamRead // ledger reads, key manager
+	seamRead // ledger reads, key manager (not triggerable)
 	seamAssemble
+	seamWaitPersist
 	nSeamKinds
 )
 
-var seamNames = [...]string{"send", "ensure", "wait", "timer", "read", "assemble"}
+var seamNames = [...]string{"send", "ensure", "wait-demux", "timer", "read", "assemble", "wait-persist"}
+
+// calledFromPersistence reports whether the current call stack is the agreement persistence loop.
+func calledFromPersistence() bool {
+	var pcs [16]uintptr
+	n := runtime.Callers(3, pcs[:])
+	fr := runtime.CallersFrames(pcs[:n])
+	for {
+		f, more := fr.Next()
+		if strings.Contains(f.Function, "asyncPersistenceLoop") {
+			return true
+		}
+		if !more {
+			return false
+		}
+	}
+}
 
 // inst is one incarnation of a node's agreement service together with its seam objects.
 type inst struct {
@@ -48,6 +71,7 @@ type inst struct {
 
 	mu       sync.Mutex
 	dead     bool          // crashed: all seam calls park
+	crashReq bool          // a trigger fired: the triggering goroutine is parked; the scheduler finalises the crash at quiescence
 	zombie   bool          // cleanup: all seam calls return benign values, nothing recorded
 	release  chan struct{} // closed at cleanup to let parked goroutines go
 	trigMask uint32        // armed crash trigger: which seam kinds count
@@ -91,11 +115,17 @@ func (in *inst) enter(k seamKind) bool {
 		return false
 	}
 	in.seamCnt[k]++
-	if !in.dead && in.trigLeft > 0 && in.trigMask&(1<<uint(k)) != 0 {
+	if !in.dead && !in.crashReq && in.trigLeft > 0 && in.trigMask&(1<<uint(k)) != 0 {
 		in.trigLeft--
 		if in.trigLeft == 0 {
-			in.dead = true
+			// Only THIS goroutine stops here; the service's other goroutines run on until they block
+			// by themselves, which is deterministic. The root goroutine then finalises the crash.
+			in.crashReq = true
 			in.trigHit = seamNames[k]
+			rel := in.release
+			in.mu.Unlock()
+			<-rel
+			return false
 		}
 	}
 	if in.dead {
@@ -149,7 +179,11 @@ func (l ledgerView) NextRound() basics.Round {
 }
 
 func (l ledgerView) Wait(r basics.Round) chan struct{} {
-	if !l.in.enter(seamWait) {
+	k := seamWaitDemux
+	if calledFromPersistence() {
+		k = seamWaitPersist
+	}
+	if !l.in.enter(k) {
 		return never
 	}
 	l.mu.Lock()
